@@ -266,6 +266,25 @@ impl Store {
     /// To ensure that the data is persisted, acquire a snapshot of the database
     /// or call flush.
     fn modify<T>(&mut self, f: impl FnOnce(&mut Tables) -> Result<T>) -> Result<T> {
+        self.modify_impl(true, f)
+    }
+
+    /// Like [`Self::modify`], but never commits the open transaction because of its age first.
+    ///
+    /// For the follow-up writes of an operation whose steps must become durable together:
+    /// committing between them would persist a half-applied operation.
+    fn modify_same_transaction<T>(
+        &mut self,
+        f: impl FnOnce(&mut Tables) -> Result<T>,
+    ) -> Result<T> {
+        self.modify_impl(false, f)
+    }
+
+    fn modify_impl<T>(
+        &mut self,
+        may_commit_old: bool,
+        f: impl FnOnce(&mut Tables) -> Result<T>,
+    ) -> Result<T> {
         #[cfg(feature = "verif-hooks")]
         self.verif_on_access();
         let guard = &mut self.transaction;
@@ -275,7 +294,7 @@ impl Store {
                 TransactionAndTables::new(tx)?
             }
             CurrentTransaction::Write(w) => {
-                if w.since.elapsed() > MAX_COMMIT_DELAY {
+                if may_commit_old && w.since.elapsed() > MAX_COMMIT_DELAY {
                     tracing::debug!("committing transaction because it's too old");
                     w.commit()?;
                     let tx = self.db.begin_write()?;
@@ -781,7 +800,8 @@ impl<'a> crate::ranger::Store<SignedEntry> for StoreInstance<'a> {
 
     fn entry_put(&mut self, e: SignedEntry) -> Result<()> {
         let id = e.id();
-        self.store.as_mut().modify(|tables| {
+        // Same transaction as the preceding prefix removal of `put`.
+        self.store.as_mut().modify_same_transaction(|tables| {
             // insert into record table
             let key = (
                 &id.namespace().to_bytes(),
@@ -903,7 +923,9 @@ impl<'a> crate::ranger::Store<SignedEntry> for StoreInstance<'a> {
         predicate: impl Fn(&Record) -> bool,
     ) -> Result<usize> {
         let bounds = RecordsBounds::author_prefix(id.namespace(), id.author(), id.key_bytes());
-        self.store.as_mut().modify(|tables| {
+        // `put` looks up the parents first (which may commit an old transaction), then removes
+        // and inserts: these writes must not be separated by an age-based commit.
+        self.store.as_mut().modify_same_transaction(|tables| {
             let cb = |_k: RecordsId, v: RecordsValue| {
                 let (timestamp, _namespace_sig, _author_sig, len, hash) = v;
                 let record = Record::new(hash.into(), len, timestamp);
